@@ -71,6 +71,17 @@ TIMEZONE_MAP = {
 }
 
 
+def checked_fallback(token: XPathFunction, func: XPathFunction) -> Callable[..., str]:
+    """The fallback function of the JSON functions: it must return a string."""
+    def fallback(s: str, context: ta.ContextType = None) -> str:
+        value = func(s, context=context)
+        if not isinstance(value, str):
+            raise token.error('XPTY0004', "the fallback function must return an xs:string")
+        return value
+
+    return fallback
+
+
 @XPath31Parser.constructor('numeric')
 def cast_numeric_type(self: XPathConstructor, value: ta.AtomicType) -> ta.NumericType:
     if isinstance(value, NumericProxy):
@@ -740,7 +751,7 @@ def evaluate__parse_json_functions(self: XPathFunction, context: ta.ContextType 
                     msg = "cannot provide both 'fallback' and 'escape' parameters"
                     raise self.error('FOJS0005', msg)
 
-                fallback = cast(Callable[..., str], v)
+                fallback = checked_fallback(self, v)
                 escape = False
 
     def decode_value(value: ta.OneOrMore[ta.ItemType]) -> ta.OneOrEmpty[ta.ItemType]:
@@ -1305,7 +1316,7 @@ def evaluate__json_to_xml(self: XPathFunction, context: ta.ContextType = None) \
                     raise self.error('FOJS0005', msg)
                 if not isinstance(value, XPathFunction):
                     raise self.error('XPTY0004')
-                fallback = cast(Callable[..., str], value)
+                fallback = checked_fallback(self, value)
 
             else:
                 raise self.error('FOJS0005')
